@@ -378,6 +378,32 @@ func c14different(g *docgen, c c14case) []c14case {
 		n.doc.del("matrix")
 		return true
 	})
+	// an unknown key of an ADJUSTMENT (soft_fail, ...) added or changed: adjustments are signed with their extra keys,
+	// whatever their skip looks like
+	for ai := 0; ai < 3; ai++ {
+		ai := ai
+		add(func(n *c14case) bool {
+			ad := adjOf(n)
+			if ad == nil || ai >= len(ad.l) || ad.l[ai].kind != 'm' || ad.l[ai].has("zz_adjustment_extra") {
+				return false
+			}
+			ad.l[ai].set("zz_adjustment_extra", dStr("added"))
+			return true
+		})
+		add(func(n *c14case) bool {
+			ad := adjOf(n)
+			if ad == nil || ai >= len(ad.l) || ad.l[ai].kind != 'm' {
+				return false
+			}
+			for i := range ad.l[ai].m {
+				if k := ad.l[ai].m[i].k; k != "with" && k != "skip" {
+					ad.l[ai].m[i].v = dStr("changed-adjustment-extra")
+					return true
+				}
+			}
+			return false
+		})
+	}
 	// an unknown key of the matrix itself added, changed or removed (the matrix is signed with its extra keys)
 	add(func(n *c14case) bool {
 		m := n.doc.get("matrix")
@@ -603,6 +629,25 @@ func init() {
 						oracleFail("C14", "verify-payload-differs", cs, fmt.Sprintf("Sign logged the payload\n%s\nVerify of the same step (err=%v) logged\n%s", base, verr, vp))
 					}
 					stat("C14", "verify-payloads")
+				}
+			}
+			// options are applied in order: an env given first and then replaced does not leak into the payload
+			if st, _, err := stepFromDoc(c.doc); err == nil {
+				lg := &payloadLogger{}
+				stale := map[string]string{"STALE_ONLY_IN_FIRST_OPTION": "x"}
+				for k, v := range c.penv {
+					stale[k] = v + " (stale)"
+				}
+				_, serr := signature.Sign(context.Background(), key.priv, &signature.CommandStepWithInvariants{CommandStep: *st, RepositoryURL: c.repo},
+					signature.WithEnv(stale), signature.WithEnv(c.penv), signature.WithLogger(lg), signature.WithDebugSigning(true))
+				if serr != nil || len(lg.payloads) != 1 || !bytes.Equal(lg.payloads[0], base) {
+					got := "none logged"
+					if len(lg.payloads) > 0 {
+						got = string(lg.payloads[0])
+					}
+					oracleFail("C14", "payload-depends-on-replaced-option", cs, fmt.Sprintf("signed with the env given once the payload is\n%s\nsigned with another env first and this env after it (err=%v):\n%s", base, serr, got))
+				} else {
+					stat("C14", "replaced-option-payloads")
 				}
 			}
 			// the payload is the same whichever entry point signs the step: directly, or as part of a step list, at
